@@ -86,6 +86,7 @@ class Job:
         object_bits=None,
         extra_instrument=(),
         split=False,
+        rest_solvers=None,
     ):
         self.name = name
         self.sources = list(sources)
@@ -109,6 +110,7 @@ class Job:
         self.object_bits = object_bits
         self.extra_instrument = list(extra_instrument)
         self.split = split
+        self.rest_solvers = list(rest_solvers) if rest_solvers else None  # portfolio for the mass of frame / pointer obligations in split mode
 
 
 def parse_cbmc_json(out):
@@ -247,6 +249,10 @@ def list_properties(job, gb, workdir):
 HARD = ("postcondition", "precondition", "loop_invariant_base", "loop_invariant_step", "loop_decreases")
 
 
+class RestGroup(list):
+    """marker: the group of frame / pointer / bounds obligations"""
+
+
 def split_groups(props, mode=True):
     """Each contract-level obligation gets its own solver run; the mass of frame /
     pointer / bounds obligations shares one.  mode "cut": additionally the cut-point
@@ -273,7 +279,7 @@ def split_groups(props, mode=True):
             rest.append(name)
     groups = hard + list(bylines.values())
     if rest:
-        groups.append(rest)
+        groups.append(RestGroup(rest))
     return groups
 
 
@@ -285,7 +291,7 @@ def canary_property(job, gb, workdir):
     return None
 
 
-def solve(job, gb, workdir, props=None, tag="", extra=()):
+def solve(job, gb, workdir, props=None, tag="", extra=(), solvers=None):
     """One cbmc run (optionally restricted to a list of property names) with the
     job's solver portfolio.  Returns dict(status, reason, results[], solver, solver_s, cmd)."""
     log = os.path.join(workdir, "log%s.txt" % tag)
@@ -295,9 +301,13 @@ def solve(job, gb, workdir, props=None, tag="", extra=()):
             base += ["--property", p]
     last_reason = ""
     total = 0.0
-    for solver in job.solvers:
+    for solver in (solvers or job.solvers):
+        tmo = job.timeout
+        if ":" in solver:  # "minisat:60" = this back end gets 60 s, then the next one is tried
+            solver, t = solver.split(":")
+            tmo = int(t)
         cmd = base + SOLVERS[solver] + [gb, "--json-ui"]
-        rc, out, err, dt = run(cmd, workdir, job.timeout, job.mem_gb, log)
+        rc, out, err, dt = run(cmd, workdir, tmo, job.mem_gb, log)
         total += dt
         if rc is None:
             last_reason = "timeout(%ds) with %s" % (job.timeout, solver)
@@ -365,7 +375,7 @@ def merge(job, res, parts):
                     }
                 )
     res["obligations"] = n
-    res["discharged"] = n - len(failed)
+    res["discharged"] = n - len(failed) - errors
     res["classes"] = classes
     res["failed"] = failed
     if failed:
